@@ -506,11 +506,28 @@ func (x *Exec) applyContract(f *Frame, st *State, fn *ssa.Function, c *Contract,
 	x.bindResults(env, fn, c, rets)
 	env.cur = post
 	env.st = st
+	// free "any" constants (anydenom(k), anyaddr(k)) of the callee's postconditions were arbitrary in its proof:
+	// at the call site they are universally quantified (unless the callee's requires mention them)
+	reqAny := map[string]bool{}
+	for _, r := range c.Requires {
+		if t, err := x.evalBool(env, r.Expr); err == nil {
+			for _, a := range anySyms(t) {
+				reqAny[a.Name] = true
+			}
+		}
+	}
 	for _, e := range c.Ensures {
 		t, err := x.evalBool(env, e.Expr)
 		if err != nil {
 			x.errorf("%s: ensures %s of %s: %v", x.unit.Name, e.Label, key, err)
 			continue
+		}
+		for _, a := range anySyms(t) {
+			if reqAny[a.Name] {
+				continue
+			}
+			bv := NewBound(a.Name, a.Sort)
+			t = Forall(bv, substitute(t, a, bv, map[*Term]*Term{}))
 		}
 		st.assume(t)
 	}
@@ -532,4 +549,25 @@ func (f *Frame) top() *Frame {
 		f = f.parent
 	}
 	return f
+}
+
+// anySyms lists the free "any_*" constants occurring in t.
+func anySyms(t *Term) []*Term {
+	seen := map[*Term]bool{}
+	var out []*Term
+	var walk func(*Term)
+	walk = func(u *Term) {
+		if seen[u] {
+			return
+		}
+		seen[u] = true
+		if u.kind == tSym && (strings.HasPrefix(u.Name, "any_denom_") || strings.HasPrefix(u.Name, "any_addr_")) {
+			out = append(out, u)
+		}
+		for _, a := range u.Args {
+			walk(a)
+		}
+	}
+	walk(t)
+	return out
 }
